@@ -253,7 +253,7 @@ struct Tables<L> {
     key_to_shape: HashMap<String, L>,
 }
 
-fn check_node<L: Language>(lang: &'static LangSig, m: &NM, r: &mut Rng, tabs: &mut Tables<L>, out: &mut CaseOut) -> bool {
+fn check_node<L: Language + Direct>(lang: &'static LangSig, m: &NM, r: &mut Rng, tabs: &mut Tables<L>, out: &mut CaseOut) -> bool {
     let cj = J::obj(vec![("lang", J::s(lang.name)), ("node", J::s(format!("{m:?}")))]);
     macro_rules! fail {
         ($sig:expr, $($arg:tt)*) => {{
@@ -269,6 +269,22 @@ fn check_node<L: Language>(lang: &'static LangSig, m: &NM, r: &mut Rng, tabs: &m
         let unslot = |s: Slot| all_names.iter().copied().find(|n| slot(*n) == s);
         let e = m.elems();
         let Some(n) = L::from_syntax(&e) else { bad!("from_syntax-none", "from_syntax rejects its own syntax {e:?}") };
+        // (g') the value from_syntax builds is the value the enum constructor builds, and that value survives to_syntax / from_syntax
+        {
+            let pay: Vec<&String> = m.fields.iter().filter_map(|f| if let MF::P(p) = f { Some(p) } else { None }).collect();
+            let sl: Vec<u32> = m.fields.iter().filter_map(|f| if let MF::S(x) = f { Some(*x) } else { None }).collect();
+            let only_ps = m.fields.iter().all(|f| matches!(f, MF::P(_) | MF::S(_)));
+            if only_ps && pay.len() <= 1 && sl.len() <= 1 {
+                if let Some(d) = L::direct(m.op, pay.first().map(|x| x.as_str()), sl.first().map(|x| slot(*x))) {
+                    if d != n {
+                        bad!("from_syntax-other-variant", "from_syntax({e:?}) = {n:?}, but the constructor of `{}` builds {d:?}", m.op);
+                    }
+                    if L::from_syntax(&d.to_syntax()).as_ref() != Some(&d) {
+                        bad!("syntax-roundtrip-of-constructed-node", "from_syntax(to_syntax({d:?})) = {:?}", L::from_syntax(&d.to_syntax()));
+                    }
+                }
+            }
+        }
         // (g) round trip
         let e2 = n.to_syntax();
         let Some(back) = from_elems(m.op, lang.sig(m.op), &e2, &unslot) else { bad!("to_syntax-shape", "to_syntax gives {e2:?}") };
@@ -444,7 +460,61 @@ fn check_node<L: Language>(lang: &'static LangSig, m: &NM, r: &mut Rng, tabs: &m
     }
 }
 
-fn run_lang<L: Language>(lang: &'static LangSig, rng: &mut Rng, n: usize, exhaustive: bool, out: &mut CaseOut) {
+/// Node values built with the enum constructors themselves (not through from_syntax), for the node forms where the harness can do
+/// that without re-implementing the language: operators without arguments, bare payload leaves, one-slot leaves. The round trip of
+/// the statement starts from a node value: to_syntax, then from_syntax, must give that value back - and the value from_syntax builds
+/// for the syntax the harness wrote must be the one the constructor builds.
+pub trait Direct: Language {
+    fn direct(op: &str, payload: Option<&str>, slot: Option<Slot>) -> Option<Self>;
+}
+impl Direct for LSym {
+    fn direct(op: &str, _p: Option<&str>, slot: Option<Slot>) -> Option<Self> {
+        match (op, slot) {
+            ("c", None) => Some(LSym::C()),
+            ("d", None) => Some(LSym::D()),
+            ("e", None) => Some(LSym::E()),
+            ("var", Some(s)) => Some(LSym::Var(s)),
+            ("g", Some(s)) => Some(LSym::G1(s)),
+            _ => None,
+        }
+    }
+}
+impl Direct for LArith {
+    fn direct(op: &str, p: Option<&str>, slot: Option<Slot>) -> Option<Self> {
+        match (op, p, slot) {
+            ("#num", Some(v), None) => v.parse::<u32>().ok().map(LArith::Num),
+            ("var", None, Some(s)) => Some(LArith::Var(s)),
+            _ => None,
+        }
+    }
+}
+impl Direct for LPay {
+    fn direct(op: &str, p: Option<&str>, slot: Option<Slot>) -> Option<Self> {
+        match (op, p, slot) {
+            ("nil", None, None) => Some(LPay::Nil()),
+            ("#num", Some(v), None) => v.parse::<u32>().ok().map(LPay::Num),
+            ("#sym", Some(v), None) => Some(LPay::Sym(Symbol::from(v))),
+            ("cst", Some(v), None) => v.parse::<u32>().ok().map(LPay::Cst),
+            ("neg", Some(v), None) => v.parse::<i64>().ok().map(LPay::Neg),
+            ("flag", Some(v), None) => v.parse::<bool>().ok().map(LPay::Flag),
+            ("var", None, Some(s)) => Some(LPay::Var(s)),
+            _ => None,
+        }
+    }
+}
+impl Direct for LNest {
+    fn direct(op: &str, p: Option<&str>, slot: Option<Slot>) -> Option<Self> {
+        match (op, p, slot) {
+            ("kk", None, None) => Some(LNest::K()),
+            ("#num", Some(v), None) => v.parse::<u32>().ok().map(LNest::N),
+            ("big", Some(v), None) => v.parse::<i64>().ok().map(LNest::Big),
+            ("tag", Some(v), Some(s)) => Some(LNest::Tag(Symbol::from(v), s)),
+            _ => None,
+        }
+    }
+}
+
+fn run_lang<L: Language + Direct>(lang: &'static LangSig, rng: &mut Rng, n: usize, exhaustive: bool, out: &mut CaseOut) {
     let mut tabs: Tables<L> = Tables { shape_to_key: HashMap::new(), key_to_shape: HashMap::new() };
     if exhaustive {
         // all slot assignments from a three-name alphabet for every variant (children with 0..2 args)
